@@ -29,6 +29,8 @@ type Case struct {
 	Schedule []int       `json:"schedule"` // choice among the parked operations at every scheduling step
 	// SameID: the competing TransactionSet re-uses the transaction id of T (clients may recycle ids)
 	SameID bool `json:"same_id,omitempty"`
+	// Impatient: instead of a schedule, a slow device and a client whose first call gives up early (impatient_test.go)
+	Impatient *Impatient `json:"impatient,omitempty"`
 }
 
 func gen(t *rapid.T) *Case {
@@ -43,6 +45,13 @@ func gen(t *rapid.T) *Case {
 	sort.Strings(c.Ops)
 	c.Schedule = rapid.SliceOfN(rapid.IntRange(0, 5), 12, 12).Draw(t, "schedule")
 	c.SameID = rapid.IntRange(0, 2).Draw(t, "competitor-reuses-id") == 0
+	if rapid.IntRange(0, 7).Draw(t, "impatient-client") == 3 {
+		c.Impatient = &Impatient{First: rapid.SampledFrom([]string{"cancel", "cancel", "confirm"}).Draw(t, "impatient-first"),
+			CtxMs: rapid.SampledFrom([]int{1, 10, 40}).Draw(t, "impatient-ctx"), DeviceMs: rapid.SampledFrom([]int{80, 150}).Draw(t, "device-ms")}
+		for i, n := 0, rapid.IntRange(1, 2).Draw(t, "impatient-nthen"); i < n; i++ {
+			c.Impatient.Then = append(c.Impatient.Then, rapid.SampledFrom([]string{"confirm", "cancel"}).Draw(t, "impatient-then"))
+		}
+	}
 	return c
 }
 
@@ -100,6 +109,9 @@ type opState struct {
 }
 
 func Exec(c *Case) (nontrivial bool, labels []string, fail *vlib.Failure) {
+	if c.Impatient != nil {
+		return execImpatient(c)
+	}
 	ctx := context.Background()
 	env := vlib.MustEnv()
 	hc := &vlib.HistCase{Universe: "plain", Palette: c.Palette}
